@@ -7,6 +7,7 @@ mod c08;
 mod c10;
 mod c11;
 mod c12;
+mod c13;
 mod c14;
 mod c15;
 mod c16;
@@ -83,6 +84,13 @@ fn main() {
         "c16" => {
             let scratch = args.get(5).cloned().unwrap_or_else(|| "/verif/.build/scratch".to_string());
             c16::run(&mut out, tier, seed, &scratch)
+        }
+        "c13" => {
+            let scratch = args.get(5).cloned().unwrap_or_else(|| "/verif/.build/scratch".to_string());
+            c13::run(&mut out, tier, seed, &scratch)
+        }
+        "c13tables" => {
+            println!("{}", c13::tables());
         }
         "c17" => {
             let scratch = args.get(5).cloned().unwrap_or_else(|| "/verif/.build/scratch".to_string());
